@@ -195,7 +195,11 @@ func evalH264(c *Ctx, k caseT, out string) {
 	} else {
 		data = Unhx(strings.Fields(k.line)[2])
 	}
-	r := implH264(data)
+	gr, ok := guard(c, k, "h264-sps-decode", func() interface{} { return implH264(data) })
+	if !ok {
+		return
+	}
+	r := gr.(implVideo)
 	modelOutcome := "ok"
 	if e, bad := m["err"]; bad {
 		modelOutcome = "err=" + e
@@ -219,20 +223,18 @@ func evalH264(c *Ctx, k caseT, out string) {
 	}
 	// MetadataIsReady: ready iff decode ok, and stores exactly Width/Height/IsFixedFrameRate/FrameRate
 	if r.outcome != "escaped-panic" {
-		if r.ready != (r.outcome == "ok") || (r.ready && !(r.mw == r.w && r.mh == r.h && r.mfixed == r.fixed && sameF(r.mfps, r.fps))) {
+		// … and nothing at all when Decode fails (Model/MetaReady.lean `ready`: the marker Width == 0 stays)
+		if r.ready != (r.outcome == "ok") || (r.ready && !(r.mw == r.w && r.mh == r.h && r.mfixed == r.fixed && sameF(r.mfps, r.fps))) ||
+			(!r.ready && (r.mw != 0 || r.mh != 0 || r.mfixed || r.mfps != 0)) {
 			c.Find(Finding{Kind: "corr", Class: "h264-metadata-ready", Case: k.line, Impl: fmt.Sprintf("ready=%v %d,%d,%v,%v", r.ready, r.mw, r.mh, r.mfixed, r.mfps), Model: out})
 		}
 	}
 	if r.outcome == "escaped-panic" {
 		c.Find(Finding{Kind: "oracle", Class: "h264-panic-escapes", Case: k.line, Impl: r.outcome, Spec: "error or result", Detail: "a panic left RawSPS.Decode / MetadataIsReady"})
 	}
-	// the same parameter set through SDP (sdp.ParseMetadata, media.NewStream); a sample of the cases
-	if c.Rng.Intn(4) == 0 && r.outcome != "escaped-panic" {
-		d := ""
-		if modelOutcome == "ok" {
-			d = m["dims"]
-		}
-		checkSdp(c, k, "h264", data, d, m["spec"])
+	// the same parameter set through SDP (sdp.ParseMetadata, media.NewStream, depacketizer): a derived case
+	if r.outcome != "escaped-panic" {
+		sdpCaseOf(c, k, "h264", data, m["spec"], derive)
 	}
 	// oracle: a syntactically valid SPS (generated inside the standard's value ranges) must decode
 	// and report the dimensions / frame rate / fixed flag the standard derives
